@@ -18,7 +18,48 @@ NAME = "files"
 PROPERTIES = ["C20"]
 
 
-def gen_plan(rng: Rng, tier: str, faulty: bool = False) -> Dict[str, Any]:
+def gen_plan_enum(rng: Rng, tier: str) -> Dict[str, Any]:
+    """Base plan of a fault-point enumeration over the write calls of one writer operation."""
+    world = worldgen.gen_world(rng.fork("world"), "files", {"always_args": True, "causal": True})
+    files = world["files"]
+    ranks = [f["rank"] for f in files]
+    inc = rng.chance(0.5)
+    ops: List[Dict[str, Any]] = [{"op": "load", "mode": "ta", "via": "dir", "include_last": inc}]
+    kind = rng.weighted([("counters", 4), ("overlay", 3), ("write", 2), ("update_rank", 3)])
+    if kind == "counters":
+        ops.append({"op": "gen_counters", "series": rng.choice([None, "queue", "both"]), "ranks": [ranks[0]],
+                    "suffix": rng.choice([None, "_c2"])})
+    elif kind == "overlay":
+        a = gen_analyze(rng, world, inc)
+        ops.append(a)
+        ops.append({"op": "cp_overlay", "graph": 0, "rank": a["rank"], "out_dir": "overlay",
+                    "only_critical": rng.chance(0.4), "all_edges": rng.chance(0.5)})
+    elif kind == "write":
+        src = rng.choice(files)
+        ops.append({"op": "write_trace", "src": src["name"], "dst": f"out/copy_{src['rank']}" + rng.choice([".json", ".json.gz"])})
+    else:
+        src = rng.choice(files)
+        dst = f"out/rk_{src['rank']}" + rng.choice([".json", ".json.gz"])
+        ops.append({"op": "write_trace", "src": src["name"], "dst": dst})
+        ops.append({"op": "update_rank", "path": dst, "rank": rng.choice([0, 1, 7, 10, 63])})
+    target = {"session": 0, "op": len(ops) - 1, "mode": "w"}
+    ops.append({"op": "disk", "docs": False})
+    sess_a = {"zygote": rng.below(len(driver.HASH_SEEDS)), "env": loader.gen_env(rng.fork("ea"), len(files), False),
+              "pre": [], "ops": ops}
+    sessions = [sess_a]
+    for k in range(2):
+        r = rng.fork(f"b{k}")
+        sessions.append({"zygote": r.below(len(driver.HASH_SEEDS)), "env": loader.gen_env(r, len(files) * 2, False), "pre": [],
+                         "ops": [{"op": "discover", "dir": "."},
+                                 {"op": "load", "mode": "full", "via": "dir", "include_last": inc, "mp": r.chance(0.6),
+                                  "memprof": False}]})
+    return {"format": 1, "profile": NAME, "world": world, "sessions": sessions,
+            "enumerate": {"target": target, "kinds": ["write_enospc", "kill"]}}
+
+
+def gen_plan(rng: Rng, tier: str, faulty: bool = False, enum: bool = False) -> Dict[str, Any]:
+    if enum:
+        return gen_plan_enum(rng, tier)
     world = worldgen.gen_world(rng.fork("world"), "files", {"always_args": True, "causal": True})
     files = world["files"]
     ranks = [f["rank"] for f in files]
@@ -328,6 +369,10 @@ def check(plan: Dict[str, Any], execution: Dict[str, Any], props: Optional[Set[s
                     continue
                 for name, info in obs["files"].items():
                     if "/" in name:
+                        continue
+                    if ws.files.get(name, {}).get("torn"):
+                        # torn by an earlier injected fault; buffered bytes may still trickle in when
+                        # the interpreter finalises the abandoned writer
                         continue
                     check_counters_file(res, name, info, ws, si, r["i"])
                     if name in ws.files and not ws.files[name].get("tool_readable", True):
